@@ -315,31 +315,52 @@ def observe_matter(obj, o, names, nm, obs):
 
 
 def replay_objects(rec, conc, what):
-    """Build the objects of one TLC scenario under one concretisation, observe, evaluate the obligations.
+    """Make and observe the objects of one TLC scenario, in order, under one concretisation; evaluate the obligations.
     conc: {names, natural, inp: {path: value}, form}.  what: 'fractions' | 'matter'.
+    how (from the spec): build (+ steps add(component i, q)) | sum of two earlier objects | perturb (the caller converts
+    every reported quantity of an earlier object in place) | again (an earlier object observed once more).
     -> ('ok', None) | ('fail', detail)"""
     from . import terms as T
     obs, inp = {}, dict(conc["inp"])
     env = T.Env(obs=obs, inp=inp, tab=tab)
-    built = []
+    built, py, desc_of = [], {}, {}
+    names = conc["names"]
     for o in rec["objects"]:
-        try:
-            props = [T.ev(t, env) for t in o["props"]]
-            d = T.ev(o["d"], env) if what == "matter" else None
-            v = T.ev(o["v"], env) if what == "matter" and o["vol"] else None
-        except T.Missing as m:
-            return ("fail", {"failure": "wrong_value", "clause": "input of object %s needs %s" % (o["name"], m), "observed": obs})
-        desc = {"object": o["name"], "cls": o["cls"], "mode": o["mode"], "names": conc["names"], "props": props,
-                "natural": conc["natural"], "d": d, "ud": o.get("ud"), "v": v, "uv": o.get("uv"), "form": conc.get("form", "dict")}
+        how = o.get("how", "build")
+        desc = {"object": o["name"], "how": how, "cls": o["cls"], "mode": o["mode"], "names": names, "natural": conc["natural"]}
         built.append(desc)
         try:
-            obj = build_object(o, conc["names"], props, conc["natural"], d, v, conc.get("form", "dict") if o["name"] == "A" else "dict")
+            if how == "build":
+                try:
+                    props = [T.ev(t, env) for t in o["props"]]
+                    d = T.ev(o["d"], env) if what == "matter" else None
+                    v = T.ev(o["v"], env) if what == "matter" and o["vol"] else None
+                    steps = [(st["i"], T.ev(st["q"], env)) for st in o.get("steps", [])]
+                except T.Missing as m:
+                    return ("fail", {"failure": "wrong_value", "clause": "input of object %s needs %s" % (o["name"], m), "observed": obs})
+                desc.update({"props": props, "d": d, "ud": o.get("ud"), "v": v, "uv": o.get("uv"), "steps": steps,
+                             "form": o.get("form", conc.get("form", "dict"))})
+                obj = build_object(o, names, props, conc["natural"], d, v, conc.get("form", "dict") if o["name"] == "A" else "dict")
+                for i, q in steps:
+                    obj.add(names[i - 1], q)                    # in place, the component exists already
+                desc_of[o["name"]] = o
+            elif how == "sum":
+                obj = py[o["of"][0]] + py[o["of"][1]]
+                desc_of[o["name"]] = dict(desc_of[o["of"][0]])
+            elif how == "perturb":
+                obj = py[o["of"][0]]
+                desc["conversions"] = perturb_reported(obj)
+                desc_of[o["name"]] = desc_of[o["of"][0]]
+            else:                                               # again
+                obj = py[o["of"][0]]
+                desc_of[o["name"]] = desc_of[o["of"][0]]
+            py[o["name"]] = obj
             if what == "fractions":
-                observe_fractions(obj, conc["names"], o["name"], obs)
+                observe_fractions(obj, names, o["name"], obs)
             else:
-                observe_matter(obj, o, conc["names"], o["name"], obs)
+                observe_matter(obj, desc_of[o["name"]], names, o["name"], obs)
         except Exception as e:
-            return ("fail", {"failure": "rejected", "clause": "object %s can be constructed and its tables obtained" % o["name"],
+            return ("fail", {"failure": "rejected", "clause": "object %s (%s) can be made and its tables obtained" % (o["name"], how),
                              "built": built, "expected": "an object", "observed": "raises " + repr(e)[:200]})
     bad = T.failing(rec["obl"], env)
     if bad:
